@@ -69,10 +69,10 @@ func (r *Real32) MAX(a, b *Real32) Scalar {
 }
 /* -------------------------------------------------------------------------- */
 func (c *Real32) ABS(a *Real32) Scalar {
-  if c.Sign() == -1 {
-    c.NEG(a)
-  } else {
-    c.SET(a)
+  switch a.Sign() {
+  case -1: c.NEG(a)
+  case 0: c.Reset()
+  case 1: c.SET(a)
   }
   return c
 }
